@@ -1167,14 +1167,18 @@ class ArithmeticExpression(Term):
     def get_sql(self, ctx: SqlContext) -> str:
         left_op, right_op = [getattr(side, "operator", None) for side in [self.left, self.right]]
 
+        # operands are rendered left to right: a parameterizer numbers values in render order
+        left_sql = self.left.get_sql(ctx)
+        right_sql = self.right.get_sql(ctx)
+        # a-(-1) must not render as a--1: "--" opens a comment in every dialect but MySQL
+        right_parens = self.right_needs_parens(self.operator, right_op) or (
+            self.operator == Arithmetic.sub and right_sql.startswith("-")
+        )
+
         arithmetic_sql = "{left}{operator}{right}".format(
             operator=self.operator.value,
-            left=("({})" if self.left_needs_parens(self.operator, left_op) else "{}").format(
-                self.left.get_sql(ctx)
-            ),
-            right=("({})" if self.right_needs_parens(self.operator, right_op) else "{}").format(
-                self.right.get_sql(ctx)
-            ),
+            left=("({})" if self.left_needs_parens(self.operator, left_op) else "{}").format(left_sql),
+            right=("({})" if right_parens else "{}").format(right_sql),
         )
 
         if ctx.with_alias:
